@@ -1,6 +1,7 @@
 package main
 
 import (
+	"sort"
 	"fmt"
 	"go/token"
 	"strings"
@@ -25,7 +26,7 @@ func init() {
 			"R4": "claim-set unit: go (tracked) of a closure calling the refresh loop, dominated by the claim Store(true), under the election mutex; every return of the loop: claim false | a may-demote call precedes it (also on the ctx.Done() exits: a cancelled Start context must end the claim)",
 			"R5": "see C15-R3",
 			"R6": "see C08-R2/R3",
-			"R8": "the refresh loop's ticker period is cfg.HeartbeatInterval",
+			"R8": "the refresh loop's ticker period is cfg.HeartbeatInterval and the ticker runs free (no Reset in the loop unit: attempts start H apart whatever they take)",
 			"R11": "the reject table of the validator contains HeartbeatInterval < c with 3c >= K (K = 1 s, the floor of the per-attempt time-out): T = max(H/2, K) <= 3H for every accepted configuration, which the stated bound needs when the last successful refresh itself was slow",
 			"R10": "no KeyValue operation in the functions reachable from the refresh loop by plain (non-go) calls",
 			"R9": "every function with a time.NewTicker loop that a claim-set unit starts (go) is called with a context whose context.With* ancestors include the term context (the With* call in the claim-set unit whose cancel is stored in the election object and called by every demotion, C19-R1)",
@@ -489,6 +490,23 @@ func checkC03(c *Ctx) {
 				}
 			}
 		}
+		if why != "" && ctxDone && !m.claimLit(gs, false) {
+			// on a ctx.Done() exit the demotion must not depend on anything but the term it belongs to:
+			// a call that only MAY demote (it returns early while the election "still runs", ...)
+			// leaves the claim standing after a cancelled Start context
+			must := false
+			eachInstr(rf, func(in ssa.Instruction) {
+				if call, ok := in.(*ssa.Call); ok && dominatesInstr(call, ret) {
+					if g := call.Call.StaticCallee(); g != nil && m.isLib(g) && m.alwaysReachesClearUnit(g, 0) {
+						must = true
+					}
+				}
+			})
+			if hasEvent(gs, "passed-may-demote") {
+				must = true // judged on the paths of the function whose result is tested (C07-R1 style)
+			}
+			c.check(must, "R4", key+" demotes unconditionally", ret, "a call that reaches the claim-clearing unit on every one of its paths dominates this ctx.Done() exit: %v (a demotion that is skipped while, say, the election context is live leaves the claim standing when the application cancels the Start context and starts again: the old loop exits, nobody refreshes the record, IsLeader() stays true)", must)
+		}
 		if why != "" {
 			c.ok("R4", key, ret, "%s", why)
 		} else if ctxDone {
@@ -623,6 +641,21 @@ func refreshPeriodRule(c *Ctx, rule string) {
 	if nTk != 1 {
 		c.undecided(rule, "refresh ticker", firstInstr(rf), "%d tickers in the refresh loop function, expected 1", nTk)
 	}
+	// the ticker runs free: attempts start on ticks that are H apart whatever the attempts take. A
+	// Reset after an attempt moves every later attempt by the duration of that attempt (the third
+	// failed attempt then ends L0 + 3H + 3T after the start of a last successful refresh that took L0).
+	nReset := 0
+	for _, g := range m.unitFns(rf) {
+		eachInstr(g, func(in ssa.Instruction) {
+			if call, ok := isCallTo(valueOf(in), "(*time.Ticker).Reset"); ok {
+				nReset++
+				c.viol(rule, "refresh ticker runs free", call, "the refresh loop re-arms its ticker (%s): attempts no longer start one heartbeat interval apart but one interval after the END of the previous attempt, and the demotion of a cut-off leader moves out by the duration of its last successful refresh", m.Sym.Of(call))
+			}
+		})
+	}
+	if nReset == 0 {
+		c.ok(rule, "refresh ticker runs free", firstInstr(rf), "no (*time.Ticker).Reset in the refresh loop and the functions it is split into")
+	}
 }
 
 
@@ -740,4 +773,177 @@ func termLoopRule(c *Ctx, rule string) {
 	if n < 2 {
 		c.undecided(rule, "instance-floor", nil, "only %d periodic loops started by the claim-set unit found; 2 on the reference tree (refresh, validation)", n)
 	}
+}
+
+
+// termLoops: the periodic loops a claim-set unit starts (refresh, validation) with their context
+// parameter: the functions with a time.NewTicker loop reachable from a goroutine of the unit.
+func (m *Model) termLoops() map[*ssa.Function]*ssa.Parameter {
+	out := map[*ssa.Function]*ssa.Parameter{}
+	for _, sp := range m.Spawns() {
+		if !m.inClaimUnit(topFunc(sp.Fn)) {
+			continue
+		}
+		for _, t := range sp.Targets {
+			for _, g := range sortedFns(m.staticReach(t, false)) {
+				if g.Parent() != nil || len(cfgLoops(g)) == 0 {
+					continue
+				}
+				hasTicker := false
+				eachInstr(g, func(in ssa.Instruction) {
+					if _, ok := isCallTo(valueOf(in), "time.NewTicker"); ok {
+						hasTicker = true
+					}
+				})
+				if !hasTicker {
+					continue
+				}
+				for _, p := range g.Params {
+					if isNamed(p.Type(), "context", "Context") {
+						out[g] = p
+						break
+					}
+				}
+			}
+		}
+	}
+	return out
+}
+
+// termBound: a demotion through h is bound to the term identified by h's context parameter #j:
+// h is a claim-clearing unit whose Store(false) is decided by the comparison of that parameter
+// with the field holding the current term's context, or every may-demote call of h passes the
+// parameter on to such a function. Returns the index of that parameter, or -1.
+func (m *Model) termBound(h *ssa.Function, depth int) int {
+	if h == nil || h.Blocks == nil || depth > 6 || m.TermCtx == "" {
+		return -1
+	}
+	if v, ok := m.termBoundMemo[h]; ok {
+		return v
+	}
+	if m.termBoundMemo == nil {
+		m.termBoundMemo = map[*ssa.Function]int{}
+	}
+	m.termBoundMemo[h] = -1
+	res := -1
+	for j, p := range h.Params {
+		if !isNamed(p.Type(), "context", "Context") {
+			continue
+		}
+		ok, n := true, 0
+		eachInstr(h, func(in ssa.Instruction) {
+			if val, isConst, isSt := m.claimStore(in); isSt && isConst && !val {
+				n++
+				decided := false
+				for _, l := range append(m.controlConds(in), m.GuardsAt(in)...) {
+					if m.isTermIdentityLit(l) {
+						for _, a := range l.S.Args {
+							if a.V == ssa.Value(p) {
+								decided = true
+							}
+						}
+					}
+				}
+				if !decided {
+					ok = false
+				}
+			}
+			if call, isCall := in.(*ssa.Call); isCall {
+				g := call.Call.StaticCallee()
+				if g == nil || !m.isLib(g) || g == h || !m.mayDemote(g, specFor(call, g), 0) {
+					return
+				}
+				n++
+				k := m.termBound(g, depth+1)
+				if k < 0 || k >= len(call.Call.Args) || m.traceValueUntil(call.Call.Args[k], func(v ssa.Value) bool { return v == ssa.Value(p) }) != ssa.Value(p) {
+					ok = false
+				}
+			}
+		})
+		if ok && n > 0 {
+			res = j
+			break
+		}
+	}
+	m.termBoundMemo[h] = res
+	return res
+}
+
+// termBoundDemotionRule (C07-R9, shared as C12-R7): every demotion a term's loop can issue is bound
+// to that term: the may-demote call passes the loop's own context to a term-bound function. A loop
+// notices the end of its term late (slow health check, store operation in flight); by then the
+// instance may lead a new term, which an unbound demotion would end.
+func termBoundDemotionRule(c *Ctx, rule string) {
+	m := c.M
+	loops := m.termLoops()
+	if len(loops) < 2 {
+		c.undecided(rule, "instance-floor", nil, "only %d periodic loops started by the claim-set unit found; 2 on the reference tree (refresh, validation)", len(loops))
+	}
+	for _, g := range sortedFnKeys(loops) {
+		p := loops[g]
+		n := 0
+		for _, u := range m.unitFns(g) {
+			eachInstr(u, func(in ssa.Instruction) {
+				call, ok := in.(*ssa.Call)
+				if !ok {
+					return
+				}
+				h := call.Call.StaticCallee()
+				if h == nil || !m.isLib(h) || containsFn(m.unitFns(g), h) || !m.mayDemote(h, specFor(call, h), 0) {
+					return
+				}
+				n++
+				k := m.termBound(h, 0)
+				bound := k >= 0 && k < len(call.Call.Args) && m.traceValueUntil(call.Call.Args[k], func(v ssa.Value) bool { return v == ssa.Value(p) }) == ssa.Value(p)
+				key := fmt.Sprintf("demotion #%d issued by %s is bound to the loop's term", ordinalOf(u, in, func(x ssa.Instruction) bool {
+					c2, ok := x.(*ssa.Call)
+					if !ok {
+						return false
+					}
+					h2 := c2.Call.StaticCallee()
+					return h2 != nil && m.isLib(h2) && !containsFn(m.unitFns(g), h2) && m.mayDemote(h2, specFor(c2, h2), 0)
+				}), shortFn(u))
+				c.check(bound, rule, key, call, "%s can end a term; it compares the context it is given with the current term's (%s) before clearing the claim: %v; the context it is given here is the loop's own: %v. An unbound demotion issued by a loop that outlived its term (it was inside a health check, or waiting for the store, while the instance was demoted and re-elected) ends the NEW term: a healthy leader demoted, OnDemote invoked a second time.", shortFn(h), m.path(m.TermCtx), k >= 0, bound)
+			})
+		}
+		if n == 0 {
+			c.ok(rule, "loop "+shortFn(g)+" issues no demotion", firstInstr(g), "no may-demote call in the loop and the functions it is split into")
+		}
+	}
+}
+
+func sortedFnKeys(mp map[*ssa.Function]*ssa.Parameter) []*ssa.Function {
+	var fs []*ssa.Function
+	for f := range mp {
+		fs = append(fs, f)
+	}
+	sort.Slice(fs, func(i, j int) bool { return fs[i].Pos() < fs[j].Pos() })
+	return fs
+}
+
+
+// alwaysReachesClearUnit: every path through g calls a (non-stop) claim-clearing unit, directly or
+// through a callee with the same property. What that unit then decides (claim already clear,
+// stopped, another term) is its own business: C08-R3, C09-R1, C07-R9.
+func (m *Model) alwaysReachesClearUnit(g *ssa.Function, depth int) bool {
+	if g == nil || g.Blocks == nil || depth > 4 {
+		return false
+	}
+	if containsFn(m.ClaimClear, g) && !containsFn(m.StopUnits, g) {
+		return true
+	}
+	isClear := func(in ssa.Instruction) bool {
+		if call, ok := in.(*ssa.Call); ok {
+			if h := call.Call.StaticCallee(); h != nil && h != g && m.isLib(h) && m.alwaysReachesClearUnit(h, depth+1) {
+				return true
+			}
+		}
+		return false
+	}
+	first := g.Blocks[0].Instrs[0]
+	if isClear(first) {
+		return true
+	}
+	ok, _ := mustFollow(first, isClear, nil)
+	return ok
 }
